@@ -8,7 +8,7 @@ BKS = ["contig", "linked", "linked_zc"]
 
 def gen_cases(rng, n):
     urt, usk = [], []
-    fixed = c07.FIXED + ["s" + "ab" * 4096, "s" + "cd" * 4095, "S2 f1 s" + "ef" * 5000 + " f2 i7", "L11,2 s" + "01" * 4096 + " s02",
+    fixed = c07.FIXED + ["L11,2 s" + "ab" * 4096 + " s6162", "M11,11,1 s61 s" + "ab" * 4100, "T11,1 s" + "cd" * 4095, "s" + "ab" * 4096, "s" + "cd" * 4095, "S2 f1 s" + "ef" * 5000 + " f2 i7", "L11,2 s" + "01" * 4096 + " s02",
                          "S3 f1 b1 f2 y-1 f3 d4609434218613702656", "S1 f1 S1 f2 S1 f3 l-9223372036854775808"]
     vals = list(fixed)
     while len(vals) < n // 4:
@@ -64,6 +64,8 @@ def run(chk, replay=None):
                     why = "size pass of the unchecked protocol reported %s for %d bytes" % (ot[ot.index("L") + 1], nbytes)
                 elif bk == "contig" and int(ot[ot.index("I") + 1]) != nbytes:
                     why = "index() after encoding is %s, bytes written %d" % (ot[ot.index("I") + 1], nbytes)
+                elif "ORACLE-FAIL unchecked-write" in o:
+                    why = "write flavours of the unchecked writer disagree: " + o[o.index("ORACLE-FAIL"):][:120]
                 elif "GUARD-BROKEN" in o:
                     why = "unchecked writer wrote outside the buffer it was given (guard bytes overwritten)"
                 elif " R " not in o:
